@@ -11,7 +11,7 @@ sys.path.insert(0, os.path.join(vlib.VERIF, "corr", "real"))
 import runner  # noqa: E402
 
 PROP_FILE = "Props/C13.v"
-THEOREMS = ["C13_no_leak_after_sweep", "C13_unregistered_is_gone", "C13_refuted_creation_window", "C13_structure"]
+THEOREMS = ["C13_no_leak_after_sweep", "C13_unregistered_is_gone", "C13_finalizers_survive_startup", "C13_refuted_creation_window", "C13_structure"]
 ASSUME = [
     "the tracker is not killed (the property's own quantifier excludes it); a killed tracker loses its registry",
     "POSIX named semaphores appear as /dev/shm/sem.<name>",
@@ -129,6 +129,36 @@ print(json.dumps(out))
 '''
 
 
+STARTUP = r'''
+import gc, json, os, sys, tempfile
+from loky.backend import get_context
+# a tracked primitive created while a child starts up: at module level of the main module, re-imported by loky_init_main children
+L = get_context("loky").Lock()
+def child(out):
+    import loky.backend.synchronize as sy
+    locks = [o for o in gc.get_objects() if isinstance(o, sy.SemLock)]
+    names = [x._semlock.name for x in locks]
+    l = r = None
+    for l in locks:
+        for r in gc.get_referrers(l):
+            if isinstance(r, dict):
+                for k in [k for k, v in r.items() if v is l]:
+                    del r[k]
+    del locks, l, r
+    gc.collect()
+    with open(out, "w") as f:
+        json.dump({"pid": os.getpid(), "names": names, "left": [n for n in names if os.path.exists("/dev/shm/sem." + n.lstrip("/"))]}, f)
+if __name__ == "__main__":
+    res = []
+    for method in ("loky_init_main", "loky"):
+        out = tempfile.mktemp()
+        p = get_context(method).Process(target=child, args=(out,)); p.start(); p.join(60)
+        d = json.load(open(out)); os.unlink(out); d["method"] = method; d["rc"] = p.exitcode
+        res.append(d)
+    print(json.dumps(res))
+'''
+
+
 def run(ctx):
     pr = vlib.prove(ctx, PROP_FILE, ["Lifecycle", "Tracker"])
     results, fails = [], []
@@ -223,6 +253,17 @@ def run(ctx):
                               [f"a {rec['kind']} whose owner died at {rec['point']} of its finalizer leaves {rec['left']} behind for good"], rec))
             elif rec["rc"] != -9:
                 fails.append((("finalizer", rec["kind"], rec["point"]), [f"crash point {rec['point']} not reached (rc {rec['rc']})"], rec))
+    # (e) a primitive created while a child starts up is unlinked when collected, and nothing is reported leaked
+    sres = runner.run_script(STARTUP, vlib.REPO, timeout=120, spare_trackers=True)
+    sgot = runner.last_json(sres)
+    if sgot is None:
+        fails.append((("startup",), ["start-up scenario did not complete: " + sres["stderr"][-300:]], None))
+    else:
+        for rec in sgot:
+            if rec["left"]:
+                fails.append((("startup", rec["method"]), [f"module-level lock of a {rec['method']} child not unlinked when its object was collected: {rec['left']}"], rec))
+        if "leaked semlock" in sres["stderr"]:
+            fails.append((("startup", "shutdown"), ["'leaked semlock' reported for a module-level lock although every process ended normally"], sgot))
     if fails:
         plan, bad, got = fails[0]
         rp = vlib.write_replay(ctx, "real", {"kind": "a named semaphore / tracked resource outlived its tree", "plan": plan, "why": bad,
